@@ -232,7 +232,7 @@ def run_params(pid, tier, t0):
 
 def run_lookup(pid, tier, t0):
     ez = vlib.build("plain")
-    consts = {"NPts": 2, "MaxFrames": 1} if tier == "quick" else {"NPts": 2, "MaxFrames": 2}
+    consts = {"NPts": 2, "MaxFrames": 1} if tier == "quick" else {"NPts": 3, "MaxFrames": 2}
     res = vlib.replay_slice("MC_Lookup.tla", "MC_Lookup.cfg", consts, ez, tag="lookup", timeout=6000)
     return report_replay(pid, [("MC_Lookup", res)], tier, t0,
                          assumptions=["positions 2^32 and 2^64-1 are tokens (-2, -1) mapped by the harness: TLC integers are 32 bit",
